@@ -156,3 +156,89 @@ class ApplySingle(Spec):
                 ('perfinv:added-map-in-range', ctx.forall(1, lambda k: Implies(And(0 <= k, k < ln(h, S.A)), And(0 <= items_i(h, S.A)[k], items_i(h, S.A)[k] < ln(h, S.ops))))),
                 ('other-subgraph-maps-untouched', ctx.forall(1, lambda k: Implies(And(0 <= k, k < ln(S.h0, S.omaps), k != S.s), items_r(h, S.omaps)[k] == items_r(S.h0, S.omaps)[k])))]
     def relevant(self, label): return None
+
+class CreateOpIdMap(Spec):
+    """_create_op_id_map: one identity map [0..n_s) and one empty added-op list per subgraph, appended in subgraph order"""
+    fields = FIELDS; consts = CONSTS
+    def __init__(self): self.invariants = {0: self.inv0}
+    def empty_list_kind(self, line): return 'int'
+    def bind(self, E, p):
+        h = p.heap; S = self
+        for nme in list(FIELDS) + ['$len', '$items:int', '$items:ref']: h.arr(nme)
+        h0 = h.copy(); S.h0 = h0
+        S.self_ = z3.Const('self', Ref); S.model = z3.Const('tflite_model', Ref); p.env.update(self=V('ref', S.self_), tflite_model=V('ref', S.model))
+        S.om = h0.load(S.self_, '_original_op_id_map'); S.am = h0.load(S.self_, '_added_op_id_map'); S.sgs = h0.load(S.model, 'subgraphs'); S.ns = ln(h0, S.sgs)
+        S.nops = lambda s: ln(h0, h0.load(items_r(h0, S.sgs)[s], 'operators'))
+        objs = [S.self_, S.model, S.om, S.am, S.sgs]
+        p.pc += [z3.Distinct(*objs)] + [x != NULL for x in objs] + [h0.alloc[x] for x in objs] + [S.ns >= 0, ln(h0, S.om) == 0, ln(h0, S.am) == 0]    # transform_graph resets both maps right before
+        p.facts.append(Schematic(1, lambda s: Implies(And(0 <= s, s < S.ns), And(items_r(h0, S.sgs)[s] != NULL, h0.load(items_r(h0, S.sgs)[s], 'operators') != NULL, S.nops(s) >= 0,
+              h0.alloc[h0.load(items_r(h0, S.sgs)[s], 'operators')], h0.load(items_r(h0, S.sgs)[s], 'operators') != S.om, h0.load(items_r(h0, S.sgs)[s], 'operators') != S.am)), 'wf:subgraphs'))
+    def bounds(self, E): return [self.ns] + [self.nops(z3.IntVal(k)) for k in range(3)]
+    def may_write(self, E, p, ref, field): return Or(ref == self.om, ref == self.am) if field in ('$items:ref', '$len') else z3.BoolVal(False)
+    def state(self, ctx, h, upto):
+        S = self; om, am = items_r(h, S.om), items_r(h, S.am)
+        return [('lengths', And(ln(h, S.om) == upto, ln(h, S.am) == upto)),
+                ('identity-map-per-subgraph', ctx.forall(2, lambda s, k: Implies(And(0 <= s, s < upto, 0 <= k, k < S.nops(s)), And(ln(h, om[s]) == S.nops(s), items_i(h, om[s])[k] == k)))),
+                ('map-length-even-when-empty', ctx.forall(1, lambda s: Implies(And(0 <= s, s < upto), And(om[s] != NULL, ln(h, om[s]) == S.nops(s), am[s] != NULL, ln(h, am[s]) == 0, h.alloc[om[s]], h.alloc[am[s]], Not(S.h0.alloc[om[s]]), Not(S.h0.alloc[am[s]]))))),
+                ('model-untouched', And(h.load(S.model, 'subgraphs') == S.sgs, ln(h, S.sgs) == S.ns, items_r(h, S.sgs) == items_r(S.h0, S.sgs)))]
+    def inv0(self, E, ctx, p, pre, i): return [('i-range', And(0 <= i, i <= self.ns))] + self.state(ctx, p.heap, i)
+    def ensures(self, E, ctx, p, ret): return self.state(ctx, p.heap, self.ns)
+
+class UpdateInstructions(Spec):
+    """_update_instructions(prev, L, s, info) — A.7: nothing changes when no op was added; otherwise the position of the last added op is
+    appended to the added-op map of subgraph s, and every LATER instruction that shares a consumer with instruction `prev` is retargeted to
+    the new tensor with the added op as producer (producer id = |orig_map[s]| + |added_map'[s]| - 1); all other instructions are unchanged."""
+    fields = FIELDS; consts = CONSTS
+    def __init__(self): self.invariants = {0: self.inv_outer, 1: self.inv_inner}
+    def bind(self, E, p):
+        h = p.heap; S = self
+        for nme in list(FIELDS) + ['$len', '$items:int', '$items:ref']: h.arr(nme)
+        h0 = h.copy(); S.h0 = h0
+        S.self_ = z3.Const('self', Ref); S.prev = z3.Int('prev_transformation_index'); S.L = z3.Const('transformations', Ref); S.s = z3.Int('subgraph_id'); S.info = z3.Const('trans_info', Ref)
+        p.env.update(self=V('ref', S.self_), prev_transformation_index=vint(S.prev), transformations=V('list[ref]', S.L), subgraph_id=vint(S.s), trans_info=V('ref', S.info))
+        S.nL = ln(h0, S.L); S.inst = lambda m: items_r(h0, S.L)[m]; S.C = lambda m: h0.load(S.inst(m), 'consumers'); S.nC = lambda m: ln(h0, S.C(m)); S.Ci = lambda m: items_i(h0, S.C(m))
+        S.om = h0.load(S.self_, '_original_op_id_map'); S.am = h0.load(S.self_, '_added_op_id_map'); S.O = items_r(h0, S.om)[S.s]; S.A = items_r(h0, S.am)[S.s]; S.nA = ln(h0, S.A)
+        S.added = h0.load(S.info, 'num_ops_added'); S.newP = ln(h0, S.O) + S.nA       # = |orig| + |added'| - 1 with |added'| = |added| + 1
+        objs = [S.self_, S.L, S.info, S.om, S.am, S.O, S.A]
+        p.pc += [z3.Distinct(*objs)] + [x != NULL for x in objs] + [h0.alloc[x] for x in objs] + [0 <= S.prev, S.prev < S.nL, 0 <= S.s, S.s < ln(h0, S.om), S.s < ln(h0, S.am), S.nA >= 0, ln(h0, S.O) >= 0]
+        F = p.facts.append
+        F(Schematic(1, lambda m: Implies(And(0 <= m, m < S.nL), And(S.inst(m) != NULL, h0.alloc[S.inst(m)], S.C(m) != NULL, S.nC(m) >= 0, S.C(m) != S.A, S.C(m) != S.L)), 'wf:instructions'))
+        F(Schematic(2, lambda m, m2: Implies(And(0 <= m, m < m2, m2 < S.nL), S.inst(m) != S.inst(m2)), 'wf:instructions-distinct'))
+        F(Schematic(1, lambda k: Implies(And(0 <= k, k < ln(h0, S.am)), items_r(h0, S.am)[k] != NULL), 'wf:added-maps'))
+        # ghost from the contract text: shares(m) <=> some consumer of instruction m is a consumer of instruction prev ; prefix version for the inner loop
+        S.inprev = z3.Function('in_prev_consumers', I, Bo); S.ipw = z3.Function('in_prev_w', I, I)
+        F(Schematic(1, lambda x: Implies(S.inprev(x), And(0 <= S.ipw(x), S.ipw(x) < S.nC(S.prev), S.Ci(S.prev)[S.ipw(x)] == x)), 'ghost:inprev-1'))
+        F(Schematic(1, lambda j: Implies(And(0 <= j, j < S.nC(S.prev)), S.inprev(S.Ci(S.prev)[j])), 'ghost:inprev-2'))
+        S.sh = z3.Function('shares_prefix', I, I, Bo)          # sh(m, i): one of the first i consumers of m is in prev's consumers
+        F(Schematic(1, lambda m: Not(S.sh(m, 0)), 'ghost:shares-0'))
+        F(Schematic(2, lambda m, i: Implies(And(0 <= m, m < S.nL, 0 <= i, i < S.nC(m)), S.sh(m, i + 1) == Or(S.sh(m, i), S.inprev(S.Ci(m)[i]))), 'ghost:shares-step'))
+        S.shares = lambda m: S.sh(m, S.nC(m))
+    def bounds(self, E): return [self.nL, self.nA, ln(self.h0, self.om), ln(self.h0, self.am)] + [self.nC(z3.IntVal(k)) for k in range(3)]
+    def may_write(self, E, p, ref, field):
+        if field in ('$items:int', '$len'): return ref == self.A
+        if field in ('producer', 'tensor_id') and 'transformation' in p.env: return ref == p.env['transformation'].term
+        return z3.BoolVal(False)
+    def callee_in(self): pass
+    def target(self, h, m, cond):
+        S = self; i = S.inst(m)
+        return If(cond, And(h.load(i, 'producer') == S.newP, h.load(i, 'tensor_id') == S.h0.load(S.info, 'output_tensor_id')),
+                  And(h.load(i, 'producer') == S.h0.load(i, 'producer'), h.load(i, 'tensor_id') == S.h0.load(i, 'tensor_id')))
+    def kept(self, ctx, h):
+        S = self
+        return [('consumer-lists-kept', ctx.forall(1, lambda m: Implies(And(0 <= m, m < S.nL), And(h.load(S.inst(m), 'consumers') == S.C(m), ln(h, S.C(m)) == S.nC(m), items_i(h, S.C(m)) == S.Ci(m))))),
+                ('added-map-appended', And(ln(h, S.A) == S.nA + 1, items_i(h, S.A)[S.nA] == S.h0.load(S.info, 'op_id') + S.added - 1, ctx.forall(1, lambda k: Implies(And(0 <= k, k < S.nA), items_i(h, S.A)[k] == items_i(S.h0, S.A)[k])))),
+                ('maps-kept', And(h.load(S.self_, '_added_op_id_map') == S.am, items_r(h, S.am) == items_r(S.h0, S.am), h.load(S.self_, '_original_op_id_map') == S.om, items_r(h, S.om) == items_r(S.h0, S.om), ln(h, S.O) == ln(S.h0, S.O)))]
+    def inv_outer(self, E, ctx, p, pre, i):        # i-th element of range(prev+1, len): index m = prev + 1 + i
+        S = self; h = p.heap; cur = S.prev + 1 + i
+        return [('i-range', And(0 <= i, i <= S.nL - S.prev - 1)),
+                ('retargeted-so-far', ctx.forall(1, lambda m: Implies(And(0 <= m, m < S.nL), S.target(h, m, And(m > S.prev, m < cur, S.shares(m))))))] + self.kept(ctx, h)
+    def inv_inner(self, E, ctx, p, pre, j):
+        S = self; h = p.heap; cur = S.prev + 1 + pre.env['$i0'].term
+        return [('j-range', And(0 <= j, j <= S.nC(cur))),
+                ('retargeted-so-far', ctx.forall(1, lambda m: Implies(And(0 <= m, m < S.nL), S.target(h, m, Or(And(m > S.prev, m < cur, S.shares(m)), And(m == cur, S.sh(cur, j)))))))] + self.kept(ctx, h)
+    def ensures(self, E, ctx, p, ret):
+        S = self; h = p.heap
+        unchanged = And(ln(h, S.A) == S.nA, items_i(h, S.A) == items_i(S.h0, S.A), h.arr('producer') == S.h0.arr('producer'), h.arr('tensor_id') == S.h0.arr('tensor_id'))
+        return [('no-op-added-means-nothing-changes', Implies(S.added == 0, unchanged)),
+                ('later-instructions-sharing-a-consumer-are-retargeted-others-unchanged', Implies(S.added != 0, ctx.forall(1, lambda m: Implies(And(0 <= m, m < S.nL), S.target(h, m, And(m > S.prev, S.shares(m))))))),
+                ('added-op-position-recorded', Implies(S.added != 0, And(ln(h, S.A) == S.nA + 1, items_i(h, S.A)[S.nA] == S.h0.load(S.info, 'op_id') + S.added - 1)))]
